@@ -446,6 +446,18 @@ func mkChunk(kind int, k int, mode int) gen.Chunking {
 			ch.FaultErr = gen.FaultErrKinds[(k/2)%len(gen.FaultErrKinds)]
 		}
 	}
+	switch mode {
+	case 5:
+		// a transient fault reported together with the last bytes before
+		// it ((n>0, err) once): the reader has still told its caller about a
+		// failure
+		ch.FaultAt = k
+		ch.Transient = true
+		ch.FaultWithData = true
+		if k%2 == 1 {
+			ch.FaultErr = gen.FaultErrKinds[(k/2)%len(gen.FaultErrKinds)]
+		}
+	}
 	if kind%5 == 4 {
 		ch.Empty = 3 // empty reads in between
 	}
@@ -543,7 +555,7 @@ func TestC11(t *testing.T) {
 			// corpus files with a parseable structure: every offset near a
 			// structural boundary plus a stride
 			n := int64(0)
-			corpusLimit := hx.Pick(3000, 60000)
+			corpusLimit := hx.Pick(3000, 24000)
 			if os.Getenv("VERIF_VARIANT") != "" {
 				corpusLimit /= 3 // the variant processes (other GOARCH, build tags) take the smaller files only
 			}
@@ -601,7 +613,7 @@ func TestC11(t *testing.T) {
 						loc := map[string]int64{}
 						for i := w; i < len(ks); i += workers {
 							k := ks[i]
-							for mode := 0; mode < 5; mode++ {
+							for mode := 0; mode < 6; mode++ {
 								c := &faultCase{Streams: []*fitmodel.Stream{p.Stream}, FileTypes: []int{ft}, Chunk: mkChunk(k, k, mode)}
 								if msg, ok := check(rec, c, loc); !ok {
 									rec.Fail("corpus", "", cf.Name+": "+msg, c)
@@ -646,7 +658,7 @@ func TestC11(t *testing.T) {
 			// every offset x {cut, fault, fault with data}
 			cnt := int64(0)
 			for k := 0; k <= total; k++ {
-				for mode := 0; mode < 5; mode++ {
+				for mode := 0; mode < 6; mode++ {
 					c.Chunk = mkChunk(k+mode, k, mode)
 					cnt++
 					if msg, ok := check(rec, c, regions); !ok {
